@@ -159,6 +159,14 @@ func c01Scenarios(tier string) []*world.Scenario {
 			out = append(out, sc2)
 		}
 	}
+	// several replies released by one vectored write to a client that reads slowly
+	for _, sz := range [][3]int{{1, 30, 30}, {40, 3, 20}} {
+		b := 2
+		if tier == "thorough" {
+			b = 3
+		}
+		out = append(out, SlowMultiFlush("C01", sz, b))
+	}
 	// multi-key requests that can only be routed in part (one key in an unowned range) are answered locally
 	// while an already routed fragment is still in flight; everything after them must still be answered in order
 	out = append(out, c01Partial(tier)...)
